@@ -534,6 +534,7 @@ func checkC15(c *km.Ctx) {
 	}
 	_ = token.EQL
 	checkSQLArgKinds(c, "R-C15-2")
+	checkStmtTableKeys(c, "R-C15-2")
 	checkSyncHandles(c)
 }
 
@@ -1039,5 +1040,87 @@ func checkGobStructs(c *km.Ctx, rule string) {
 		} else {
 			r.AnchorLost(rule, "type userProfile")
 		}
+	}
+}
+
+// checkStmtTableKeys: the SQL statements are kept in package-level maps indexed by the database type; every such
+// table has an entry for every database type the others know. A lookup with a missing key yields the empty
+// statement, the driver refuses it, and where the caller drops the error (the eviction of a rejected cached
+// password) nothing happens.
+func checkStmtTableKeys(c *km.Ctx, rule string) {
+	pk := c.P.Pkg("cmd/keymasterd")
+	if pk == nil {
+		return
+	}
+	type tab struct {
+		g    *ssa.Global
+		keys map[string]bool
+	}
+	var tabs []tab
+	count := map[string]int{}
+	var names []string
+	for n := range pk.Members {
+		names = append(names, n)
+	}
+	sort.Strings(names)
+	for _, n := range names {
+		g, ok := pk.Members[n].(*ssa.Global)
+		if !ok {
+			continue
+		}
+		mt, ok := g.Type().(*types.Pointer).Elem().Underlying().(*types.Map)
+		if !ok || !types.Identical(mt.Key().Underlying(), types.Typ[types.String]) || !types.Identical(mt.Elem().Underlying(), types.Typ[types.String]) {
+			continue
+		}
+		ents, ok := globalTableEntries(c, g)
+		if !ok || len(ents) == 0 {
+			continue
+		}
+		isSQL := false
+		keys := map[string]bool{}
+		for _, e := range ents {
+			k, okK := evalString(c, e.Key, 0)
+			v, okV := evalString(c, e.Value, 0)
+			if !okK {
+				continue
+			}
+			keys[k] = true
+			if okV {
+				lv := strings.ToLower(strings.TrimSpace(v))
+				for _, kw := range []string{"select ", "insert ", "delete ", "update ", "create "} {
+					if strings.HasPrefix(lv, kw) {
+						isSQL = true
+					}
+				}
+			}
+		}
+		if !isSQL {
+			continue
+		}
+		tabs = append(tabs, tab{g, keys})
+		for k := range keys {
+			count[k]++
+		}
+	}
+	if len(tabs) < 3 {
+		c.R.AnchorLost(rule, sprintf("SQL statement tables of cmd/keymasterd (found %d)", len(tabs)))
+		return
+	}
+	// the database types: the keys most tables have
+	var want []string
+	for k, n := range count {
+		if 2*n > len(tabs) {
+			want = append(want, k)
+		}
+	}
+	sort.Strings(want)
+	for _, t := range tabs {
+		var missing []string
+		for _, k := range want {
+			if !t.keys[k] {
+				missing = append(missing, k)
+			}
+		}
+		c.R.Add(rule, "cmd/keymasterd", "statement table "+t.g.Name(), c.P.Pos(t.g.Pos()), sprintf("an entry for each database type %v", want), sprintf("missing=%v", missing), len(missing) == 0)
 	}
 }
